@@ -1,5 +1,7 @@
 from __future__ import annotations
 
+import copy
+
 from datetime import timedelta
 from typing import TYPE_CHECKING
 from typing import Any
@@ -540,6 +542,11 @@ class AbsoluteDuration(Duration):
 
     def total_seconds(self) -> float:
         return abs(self._total)
+
+    def __deepcopy__(self, _: dict[int, Self]) -> Self:
+        # The components are absolute values: rebuilding from them
+        # would lose the sign. All the attributes are immutable.
+        return copy.copy(self)
 
     @property
     def invert(self) -> bool:
